@@ -21,6 +21,7 @@ const (
 	ShapeSpiky
 	ShapeHalts // a random walk with halted sessions: open = high = low = close (the previous close), zero volume
 	ShapeSteps // a random walk rounded to a few integer levels: exact repeats of earlier closes while still moving
+	ShapeMicro // prices that move by a few millionths per bar: outcomes and indicator values that differ far below 0.01
 	NumShapes
 	// ShapeGlitch is outside the generally drawn shapes (prices are not positive): a random walk
 	// with data glitches - bars whose prices and volume are all 0. Only C05 draws it: its oracle
@@ -28,7 +29,7 @@ const (
 	ShapeGlitch = NumShapes
 )
 
-var shapeNames = []string{"walk", "flat", "up", "down", "saw", "ties", "tiny", "huge", "spiky", "halts", "steps", "glitch"}
+var shapeNames = []string{"walk", "flat", "up", "down", "saw", "ties", "tiny", "huge", "spiky", "halts", "steps", "micro", "glitch"}
 
 // genSnapshots returns n snapshots of the given shape with low <= open, close <= high, positive
 // prices, non-negative volume and consecutive whole-day UTC dates starting at start.
@@ -48,6 +49,8 @@ func genSnapshots(n int, shape int, seed int64, start time.Time) []*asset.Snapsh
 		case ShapeWalk, ShapeTiny, ShapeHuge, ShapeHalts, ShapeGlitch, ShapeSteps:
 			price *= 1 + 0.04*(rng.Float64()-0.5)
 		case ShapeFlat:
+		case ShapeMicro:
+			price *= 1 + 4e-6*(rng.Float64()-0.4)
 		case ShapeUp:
 			price *= 1.01
 		case ShapeDown:
@@ -74,7 +77,9 @@ func genSnapshots(n int, shape int, seed int64, start time.Time) []*asset.Snapsh
 		h := c
 		l := c
 		vol := 1000.0
-		if shape != ShapeFlat && shape != ShapeTies {
+		if shape == ShapeMicro {
+			vol = float64(500 + rng.Intn(500))
+		} else if shape != ShapeFlat && shape != ShapeTies {
 			o = c * (1 + 0.01*(rng.Float64()-0.5))
 			h = math.Max(o, c) * (1 + 0.01*rng.Float64())
 			l = math.Min(o, c) * (1 - 0.01*rng.Float64())
